@@ -6,6 +6,7 @@
 
 #include <chrono>
 #include <cstdint>
+#include <cstddef>
 
 namespace mfuse
 {
@@ -13,6 +14,13 @@ namespace verif
 {
     // When set, TimeManager reads this clock (milliseconds) instead of std::chrono::steady_clock.
     extern int64_t (*clockHook)();
+
+    // H4: optional probes of the interpreter. stepHook is called before every executed
+    // instruction (VM identity, code offset in its program, operand stack index, declared
+    // stack size); endHook when a VM is about to be destroyed at the end of its thread
+    // (operand stack index at that point).
+    extern void (*vmStepHook)(const void* vm, size_t codeOffset, size_t stackIndex, size_t stackSize);
+    extern void (*vmEndHook)(const void* vm, size_t stackIndex);
 
     inline void OverrideNow(std::chrono::time_point<std::chrono::steady_clock>& tp)
     {
